@@ -244,6 +244,13 @@ type Target struct {
 	// wrapping of the target), and for a whole-function target it is also what falling off the end
 	// of a result-less body stands for.
 	NakedRetW string
+	// Extensions of iotargets.go (C01, the io.Writer / io.Reader loops): LoopBody (with Stmt selecting a
+	// condition-less `for {` statement): the translated statements are the BODY of that loop, i.e. one
+	// iteration (Rest = the end of the body is reached: the loop goes round again).  IO: opt-in for
+	// multi-result returns as tuples, compound assignments `v += e`, re-slicing `s = s[e:]` of a slice
+	// variable and `if L = e; cond {` over a declared lvalue (see iotargets.go).
+	LoopBody bool
+	IO       bool
 }
 
 type fnctx struct {
@@ -514,6 +521,9 @@ func (c *fnctx) stmts(list []ast.Stmt, rest string) string {
 			return tail()
 		}
 		return pre + " " + tail()
+	}
+	if out, ok := c.stmtIOExt(list, rest); ok { // iotargets.go (opt-in: Target.IO)
+		return out
 	}
 	if out, ok := c.stmtMap(list, rest); ok { // mapext.go
 		return out
@@ -874,6 +884,9 @@ func (t *translator) emitFunc(tg *Target, w *bytes.Buffer) {
 		sel = t.findStmt(fd, tg.Stmt, tg.Func)
 		scope = sel
 		selList = []ast.Stmt{sel}
+		if tg.LoopBody {
+			selList, scope = t.loopBodyOf(sel, tg) // iotargets.go
+		}
 		if tg.After {
 			selList = t.stmtsAfter(fd, sel, tg.Func)
 			if tg.Until != "" {
@@ -929,7 +942,11 @@ func (t *translator) emitFunc(tg *Target, w *bytes.Buffer) {
 				fmt.Fprintf(w, "   up to (not including) the statement that starts with: %s\n", tg.Until)
 			}
 		} else {
-			fmt.Fprintf(w, "   statement at lines %d-%d starting with: %s\n   falling out of it  =>  %s\n", sp.Line, se.Line, tg.Stmt, tg.Rest)
+			what := "statement"
+			if tg.LoopBody {
+				what = "ONE ITERATION (the body) of the loop"
+			}
+			fmt.Fprintf(w, "   %s at lines %d-%d starting with: %s\n   falling out of it  =>  %s\n", what, sp.Line, se.Line, tg.Stmt, tg.Rest)
 		}
 		if tg.Pre != "" {
 			fmt.Fprintf(w, "   prefix: %s\n", tg.Pre)
